@@ -702,11 +702,19 @@ func Main(m *testing.M, property string) {
 	setFlag("rapid.shrinktime", "20s")
 	setFlag("rapid.steps", "30")
 	code := m.Run()
+	for _, fn := range exitHooks {
+		fn()
+	}
 	if os.Getenv("VERIF_FUZZ") == "" {
 		flush()
 	}
 	os.Exit(code)
 }
+
+var exitHooks []func()
+
+// OnExit registers a function run after all tests of the process (stop helper processes, remove scratch files).
+func OnExit(fn func()) { exitHooks = append(exitHooks, fn) }
 
 // RunAll runs every registered check (or the replay when VERIF_REPLAY is set).
 func RunAll(t *testing.T) {
